@@ -605,3 +605,32 @@ func isLenOfPiece(v, x ssa.Value) bool {
 	}
 	return false
 }
+
+// resetState: the step constant that means "waiting for the first message". It is what reset() stores; when reset() was written
+// out at its call sites (the helper no longer exists) it is the constant the constructor starts the controller in.
+func resetState(p *core.Program, ctrl, typ string) (val int64, pos token.Pos, ok bool) {
+	if reset := p.Func("hap/pair", "(*"+ctrl+").reset"); reset != nil {
+		if rs := stepSummary(reset, typ, "step", 3); rs.kind == 1 {
+			return rs.val, reset.Pos(), true
+		}
+		return 0, reset.Pos(), false
+	}
+	ctor := p.Func("hap/pair", "New"+ctrl)
+	if ctor == nil {
+		return 0, token.NoPos, false
+	}
+	n := 0
+	core.Instrs(ctor, func(i ssa.Instruction) {
+		if st, isSt := i.(*ssa.Store); isSt {
+			if _, isStep := core.FieldAddrOf(st.Addr, typ, "step"); isStep {
+				if k, isK := core.ConstInt(st.Val); isK {
+					val, pos = k, st.Pos()
+					n++
+				} else {
+					n = 100
+				}
+			}
+		}
+	})
+	return val, pos, n == 1
+}
